@@ -142,24 +142,27 @@ Qed.
 (* ------------------------------------------------------------------ the shape of a match *)
 
 Lemma do_test_range inp : forall items pos sr er em sr' er',
-  do_test inp items pos sr er = Some (em, sr', er') -> 0 <= em <= len inp.
+  -1 <= er <= len inp ->
+  do_test inp items pos sr er = Some (em, sr', er') -> 0 <= em <= len inp /\ -1 <= er' <= len inp.
 Proof.
-  induction items as [|it items IH]; intros pos sr er em sr' er'; cbn [do_test];
+  induction items as [|it items IH]; intros pos sr er em sr' er' He; cbn [do_test];
     destruct ((pos >? len inp) || (pos <? 0)) eqn:G; try discriminate.
   - intros H. injection H as <- <- <-. lia.
   - destruct it as [cs|k| |].
-    + destruct (match_current inp pos cs); [apply IH|discriminate].
-    + destruct (pos - k <? 0); [discriminate|apply IH].
-    + apply IH.
-    + apply IH.
+    + destruct (match_current inp pos cs); [apply IH; exact He|discriminate].
+    + destruct (pos - k <? 0); [discriminate|apply IH; exact He].
+    + apply IH; exact He.
+    + apply IH; lia.
 Qed.
 
+(* after a look-back the match may end before the replaced range (m_end < m_er); the position a
+   successful action continues at is never smaller than m_er (do_action) *)
 Lemma match_shape_l : forall inp r pos m, pass_test inp r pos = Some m ->
-  m_start m = pos /\ pos <= m_sr m /\ m_sr m <= m_er m /\ m_er m <= m_end m /\ m_end m <= len inp.
+  m_start m = pos /\ pos <= m_sr m /\ m_sr m <= m_er m /\ m_er m <= len inp /\ 0 <= m_end m <= len inp.
 Proof.
   intros inp r pos m. unfold pass_test.
   destruct (do_test inp (p_test r) pos (-1) (-1)) as [[[em sr] er]|] eqn:Et; [|discriminate].
-  apply do_test_range in Et.
+  apply do_test_range in Et; [|unfold len; lia].
   destruct (_ || _) eqn:G; [discriminate|]. intros H. injection H as <-.
   cbn [m_start m_sr m_er m_end].
   destruct (sr =? -1); lia.
